@@ -45,8 +45,9 @@ FORBIDDEN = re.compile(
 )
 
 TRUSTED_BASE = [
-    "Coq 8.16.1 kernel (coqc full .vo build; no -vos/-vok); vm_compute is used for reflective finite checks and for evaluating model cases; no native_compute; no extraction",
-    "axioms: none declared; Print Assumptions of every property theorem is recorded in this file (expected: Closed under the global context)",
+    "Coq 8.16.1 kernel (coqc full .vo build; no -vos/-vok); vm_compute is used for reflective finite checks and for evaluating model cases; no native_compute",
+    "extraction (only for running the model at volume, never for a theorem): coq/Extract/Extract*.v, `Require Extraction. Require Import ExtrOcamlBasic.` and nothing else (no Extract Constant / Extract Inductive of our own; ExtrOcamlBasic maps bool, option, unit, prod, list, sumbool, sumor to OCaml's); positive/Z/N stay the extracted inductives; the field is an OCaml FieldOps dictionary over Zarith Q (harness/ocaml/helpers*.ml); a sample of every OCaml-evaluated batch is re-evaluated inside Coq (vm_compute, Qc) and must give identical integers",
+    "axioms: none declared; Print Assumptions of every property theorem is recorded in this file (expected: Closed under the global context; the standard library's real-number axioms sig_forall_dec, sig_not_dec, functional_extensionality_dep and classic only where a theorem is stated over R); thorough tier: coqchk -o on the property's compiled files, its axiom list recorded here",
     "harness/translate.py (fail-closed Python-ast translator of literal tables/constants from /repo into coq/Generated/Constants.v)",
     "correspondence harness (generators, implementation runners under /venv/bin/python with PYTHONPATH=/repo, float64; comparison tolerances as recorded)",
     "oracles with stated contracts: QR (Gram identity), linear solve / pseudo-inverse (result checked in the model), jax.experimental.jet (truncated series semantics), ** with non-integer exponent, user vector field",
@@ -260,7 +261,56 @@ def prove(pid: str, timeout=1500, jobs=16):
     bad = scan_forbidden()
     if bad:
         res["errors"].append("forbidden constructs: " + ", ".join(bad[:10]))
+    if not res["errors"] and _tier_from_argv() == "thorough":
+        res["coqchk"] = coqchk([os.path.splitext(os.path.basename(pf))[0] for pf in pfiles])
+        if res["coqchk"].get("error"):
+            res["errors"].append("coqchk: " + res["coqchk"]["error"])
     res["ok"] = not res["errors"]
+    return res
+
+
+def _tier_from_argv():
+    a = sys.argv
+    for i, x in enumerate(a):
+        if x == "--tier" and i + 1 < len(a):
+            return a[i + 1]
+        if x.startswith("--tier="):
+            return x.split("=", 1)[1]
+    return os.environ.get("VERIF_TIER", "quick")
+
+
+def coqchk(stems, timeout=2400):
+    """Independent re-check of the compiled property files (and everything they depend on) with coqchk -o.
+    A timeout is recorded but is not an error (coqc's kernel already accepted the files)."""
+    t0 = time.time()
+    mods = " ".join(f"PD.Props.{s}" for s in stems)
+    rc, out = sh(f"timeout {timeout} coqchk -silent -o -Q . PD {mods}", cwd=COQ, timeout=timeout + 60)
+    res = {"modules": stems, "seconds": round(time.time() - t0, 1), "rc": rc}
+    if rc == 124:
+        res["status"] = "timeout (not completed; not an error)"
+        return res
+    if rc != 0:
+        res["status"] = "rejected"
+        res["error"] = "coqchk rejected the compiled files: " + out[-400:]
+        return res
+    sect = {}
+    cur = None
+    for line in out.splitlines():
+        m = re.match(r"^\* ([^:]+):\s*(.*)$", line)
+        if m:
+            cur = m.group(1).strip()
+            sect[cur] = [] if m.group(2).strip() in ("", "<none>") else [m.group(2).strip()]
+        elif cur and line.strip():
+            sect[cur].append(line.strip())
+    res["axioms"] = sect.get("Axioms", [])
+    res["summary"] = {k: v for k, v in sect.items() if k != "Axioms"}
+    extra = [a for a in res["axioms"] if a.split(".")[-1] not in ALLOWED_AXIOMS]
+    unsafe = [k for k, v in sect.items() if k != "Axioms" and k != "Theory" and v]
+    if extra:
+        res["error"] = f"axioms outside the allow-list: {extra}"
+    elif unsafe:
+        res["error"] = f"unsafe features reported: {unsafe}"
+    res["status"] = "ok" if "error" not in res else "rejected"
     return res
 
 
@@ -537,6 +587,7 @@ class Check:
             "theorems": pr.get("theorems", []),
             "print_assumptions": {k: (v if v else "Closed under the global context") for k, v in pr.get("axioms", {}).items()},
             "proof_errors": pr.get("errors", []),
+            "coqchk": pr.get("coqchk", "not run in this tier (thorough tier only)"),
             "evaluations": self.evaluations,
             "distinct_nontrivial": len(self.nontrivial),
             "rule": rule,
